@@ -171,7 +171,7 @@ type itemLine struct {
 	current   bool
 	selected  bool
 	label     string
-	queryLen  int
+	pattern   *Pattern
 	width     int
 	hasBar    bool
 	result    Result
@@ -2821,7 +2821,7 @@ func (t *Terminal) printItem(result Result, line int, maxLine int, index int, cu
 	// Avoid unnecessary redraw
 	numLines, _ := t.numItemLines(item, maxLine-line+1)
 	newLine := itemLine{valid: true, firstLine: line, numLines: numLines, cy: index + t.offset, current: current, selected: selected, label: label,
-		result: result, queryLen: len(t.input), width: 0, hasBar: line >= barRange[0] && line < barRange[1]}
+		result: result, pattern: t.merger.pattern, width: 0, hasBar: line >= barRange[0] && line < barRange[1]}
 	prevLine := t.prevLines[line]
 	forceRedraw := !prevLine.valid || prevLine.other || prevLine.firstLine != newLine.firstLine
 	printBar := func(lineNum int, forceRedraw bool) bool {
@@ -2833,7 +2833,7 @@ func (t *Terminal) printItem(result Result, line int, maxLine int, index int, cu
 		prevLine.current == newLine.current &&
 		prevLine.selected == newLine.selected &&
 		prevLine.label == newLine.label &&
-		prevLine.queryLen == newLine.queryLen &&
+		prevLine.pattern == newLine.pattern &&
 		prevLine.result == newLine.result {
 		t.prevLines[line].hasBar = printBar(line, false)
 		return line + numLines - 1
